@@ -185,6 +185,8 @@ def main(argv=None):
     if a.only:
         contracts = [c for c in contracts if a.only in c.name]
         bounded = [b for b in bounded if a.only in b.name]
+    # a contract may be too expensive for the check run on every change: `tiers = ("thorough",)` keeps it out of quick
+    contracts = [c for c in contracts if a.tier in getattr(c, "tiers", ("quick", "thorough"))]
     _STATE.update(contracts=contracts, bounded=bounded, extra=extra)
     thorough = a.tier == "thorough"
     tasks = []
